@@ -94,8 +94,11 @@ type KCase struct {
 	CloseFail bool   `json:"close_fail,omitempty"`
 	// every Receive call of the simulated kernel takes this many milliseconds (the model has no clock: the outcome of a
 	// history depends on what the kernel sends and how often a receive fails, not on how long a receive takes)
-	RecvDelayMs int   `json:"recv_delay_ms,omitempty"`
-	Ops         []KOp `json:"ops,omitempty"`
+	RecvDelayMs int `json:"recv_delay_ms,omitempty"`
+	// the transport reports a transient receive failure as an error that wraps the errno (os.SyscallError, fmt %w), as a
+	// NetlinkSendReceiver other than the library's own may; it is the same failure
+	WrapErrno bool  `json:"wrap_errno,omitempty"`
+	Ops       []KOp `json:"ops,omitempty"`
 	// fromwire
 	Prior string `json:"prior,omitempty"` // hex, 44 bytes: the receiver's previous content
 	Buf   string `json:"buf,omitempty"`   // hex: the buffer decoded (fromwire), the payload (perr, echo), the datagram (spoof)
@@ -237,6 +240,7 @@ func runClientImpl(c KCase) *clientRun {
 	bl := maxDatagram(c)
 	sim := simkernel.New(c.Seq0, bl, c.CloseFail)
 	sim.RecvDelay = time.Duration(c.RecvDelayMs) * time.Millisecond
+	sim.WrapErrno = c.WrapErrno
 	cl := &libaudit.AuditClient{Netlink: sim}
 	run := &clientRun{Pid: uint32(os.Getpid())}
 	seq := c.Seq0
@@ -469,6 +473,8 @@ func runClientCase(ctx *Ctx, m *common.Model, c KCase, idx int) *common.Violatio
 		return runExactFitCase(ctx, c, idx)
 	case "tail":
 		return runTailCase(ctx, c, idx)
+	case "fdzero":
+		return runFdZeroCase(ctx, c, idx)
 	case "seqwrap":
 		return runSeqWrapCase(ctx, c, idx)
 	case "spoof":
@@ -725,6 +731,12 @@ func clientFamily(ctx *Ctx) error {
 		if err != nil {
 			return err
 		}
+		var rpp struct {
+			Input map[string]interface{} `json:"input"`
+		}
+		if json.Unmarshal(b, &rpp) == nil && replayClientProbe(rpp.Input) {
+			return nil
+		}
 		var rp struct {
 			Input KCase `json:"input"`
 		}
@@ -733,6 +745,7 @@ func clientFamily(ctx *Ctx) error {
 		}
 		return replayClientCase(ctx, m, rp.Input)
 	}
+	runClientProbes(ctx)
 
 	report := func(v *common.Violation, c KCase) {
 		if v == nil {
